@@ -1,12 +1,12 @@
 PROP = dict(
         engine="registry", harness="registry", driver="drv_registry",
-        props=["Hostd.Props.C20"],
+        props=["Hostd.Props.C20", "Hostd.Props.C20Conc"],
         quick=dict(n=640, len=40, shards=16, timeout=300),
         thorough=dict(n=6000, len=80, shards=16, timeout=1500),
         nontrivial=r"res=ok", min_ops=5, min_kinds=2,
         trusted_base=COMMON_TB + ["protocol ordering ValidateRegistryUpdate transcribed in Model/Registry.supersedes and cross-checked on every put",
                                    "ValidateRegistryEntry result (signature, type, size) computed by core and passed to the model as `valid`"],
-        level_text="Put/Get/limit semantics proved in Lean for every operation sequence (last accepted write wins, accept iff valid and superseding or new below the limit, rejected = no change, count = metric, count never raised at/above the limit); the model is tied to the code by replaying seeded operation sequences run on the real registry.Manager + sqlite.Store through the compiled model driver",
+        level_text="Put/Get/limit semantics proved in Lean for every operation sequence (last accepted write wins, accept iff valid and superseding or new below the limit, rejected = no change, count = metric, count never raised at/above the limit); for any number of concurrent callers whose Put is split into its read half and its write half, with limit changes interleaved, every schedule under Manager.mu yields the state and results of the atomic puts in write order (C20_serializable; the unlocked system has a non-serialisable schedule, unlocked_not_serializable, which the harness op cput runs against the real manager); the model is tied to the code by replaying seeded operation sequences run on the real registry.Manager + sqlite.Store through the compiled model driver",
         level_note="trusted: Lean kernel (+propext, Quot.sound), core's ValidateRegistryEntry verdict passed as input, harness canonicalisation; SQLite atomicity assumed",
         assumptions=["'never exceeds the limit' read as: no Put raises the count at or above the limit in force (DESIGN §6.4)"],
     )
